@@ -5,18 +5,8 @@ import (
 )
 
 func (sel *Selection) XFind(path *xpath.Path) (*Selection, error) {
-	p := sel
-	var err error
-	xp := path
-	r := xpathImpl{}
-	for xp != nil {
-		p, err = r.resolvePath(xp, p)
-		if p == nil || err != nil {
-			return nil, err
-		}
-		xp = xp.Next
-	}
-	return p, nil
+	// resolvePath follows the whole path, segment by segment
+	return xpathImpl{}.resolvePath(path, sel)
 }
 
 func (sel *Selection) XPredicate(p *xpath.Path) (bool, error) {
